@@ -98,6 +98,12 @@ def gen_case(rng, thorough=False):
     pool = rng.choice(NAME_POOLS)
     ids = rng.sample(range(1000), n)
     names = [f'{pool}{i}' for i in ids]
+    u = rng.random()
+    if u < 0.2:                                   # integer feature names (the default column labels of a pandas frame): 0 is among them
+        names = list(range(n))
+        rng.shuffle(names)
+    elif u < 0.3:                                 # an unnamed column
+        names[rng.randrange(n)] = ''
     foreign = ['label', 'x AND_REL y']
     vf_rel = rng.choice(VALUE_FAMS)
     vf_pair = rng.choice(VALUE_FAMS + [vf_rel])
